@@ -393,6 +393,10 @@ def toml_file(settings):
         names = opt.split(".")
         for s in names[:-1]:
             node = node.setdefault(s, {})
+            if not isinstance(node, dict):
+                raise ValueError("conflict in toml spec")
+        if isinstance(node.get(names[-1]), dict):
+            raise ValueError("conflict in toml spec")
         node[names[-1]] = dec(v)
 
     def leaves_first(d):
@@ -485,7 +489,10 @@ class Scenario:
     def add_file(self, rng, d, fname, settings, with_foreign=False):
         self.mkdir(d)
         if fname == "pyproject.toml":
-            text, tree = toml_file(settings)
+            try:
+                text, tree = toml_file(settings)
+            except ValueError:      # a value and a table of the same name cannot be written in one toml file
+                return
             self.dirs[d][fname] = ("toml", text, tree)
         else:
             text, view = ini_file(rng, settings, with_foreign)
@@ -590,10 +597,7 @@ def gen_scenario(rng, malformed=False, conflicts=True):
             k = rng.choice([1, 1, 1, 2, 2, 3])
             for fname in rng.sample(FILENAMES, k):
                 toml = fname == "pyproject.toml"
-                try:
-                    sc.add_file(rng, tuple(d), fname, gen_settings(rng, rng.choice([1, 2, 3, 4]), avoid_none=toml, pool=pool), with_foreign=fname in ("setup.cfg", "tox.ini") and rng.random() < 0.5)
-                except ValueError:
-                    pass
+                sc.add_file(rng, tuple(d), fname, gen_settings(rng, rng.choice([1, 2, 3, 4]), avoid_none=toml, pool=pool), with_foreign=fname in ("setup.cfg", "tox.ini") and rng.random() < 0.5)
     # user config dir: ~/.config/sqlfluff or $XDG_CONFIG_HOME/sqlfluff
     r = rng.random()
     if r < 0.3:
@@ -614,7 +618,8 @@ def gen_scenario(rng, malformed=False, conflicts=True):
         fname = rng.choice(["extra.cfg", ".sqlfluff", "pyproject.toml", "my.toml"])
         toml = fname == "pyproject.toml"
         sc.add_file(rng, ("cfg",), fname, gen_settings(rng, 3, avoid_none=toml, pool=pool))
-        sc.extra = ("cfg", fname)
+        if fname in sc.dirs[("cfg",)]:
+            sc.extra = ("cfg", fname)
     if rng.random() < 0.12:
         sc.ignore_local = True
     if rng.random() < 0.5:
@@ -1286,6 +1291,11 @@ def fixed_scenarios(rng):
         sc.ignore_local = ign
         sc.sql = [(sc.cwd + ("q.sql",), "select 1\n")]
         out.append(sc)
+    # a dialect that only the file's inline directive sets
+    sc = base("inline-only-dialect")
+    sc.add_file(rng, sc.cwd, ".sqlfluff", [S("core", "max_line_length", "60")])
+    sc.sql = [(sc.cwd + ("q.sql",), "-- sqlfluff:dialect:ansi\nselect 1\n"), (sc.cwd + ("r.sql",), "select 1\n")]
+    out.append(sc)
     # file outside the working directory; working directory outside home
     sc = base("file-outside-cwd")
     sc.cwd = ("srv", "proj", "app")
@@ -1338,7 +1348,7 @@ def _run(ctx, coq_ok, base_tmp):
 
     # ---- scenarios: generate, write, build the Coq terms
     scs = fixed_scenarios(rng)
-    n_rand = 90 if quick else 1100
+    n_rand = 80 if quick else 800
     for i in range(n_rand):
         scs.append(gen_scenario(rng, malformed=(i % 4 == 3), conflicts=(i % 3 != 0)))
     B = Batch()
@@ -1375,7 +1385,7 @@ def _run(ctx, coq_ok, base_tmp):
         # ---- the implementation on every scenario
         t_impl0 = coq.now()
         n_hist = 0
-        max_hist = 14 if quick else 140
+        max_hist = 10 if quick else 100
         for si, (sc, info) in enumerate(zip(scs, infos)):
             root = info["root"]
             with Redirect(os.path.join(root, *sc.home), None if sc.xdg is None else os.path.join(root, *sc.xdg), os.path.join(root, *sc.cwd)):
@@ -1406,21 +1416,22 @@ def _run(ctx, coq_ok, base_tmp):
                         def call(p=p):
                             _raw, cfg, _enc = Linter.load_raw_file_and_config(spell(root, sc.cwd, p, rng), root_cfg)
                             return norm_impl(cfg._configs)
-                        r = try_call(call)
-                        if r[0] == "err" and r[1] == "ERuntime":
-                            # SQLFluffUserError "No dialect was specified" is the linter's requirement, not the config stack's
-                            d0 = info["direct"][len(vl)]
-                            if d0[0] == "ok" and d0[2].get("dialect") is None:
-                                r = ("nodialect",)
+                        try:
+                            r = ("ok", call())
+                        except Exception as e:  # noqa: BLE001
+                            # "No dialect was specified" is the linter's own requirement (make_child_from_path), not the config stack's
+                            r = ("nodialect",) if type(e).__name__ == "SQLFluffUserError" and "No dialect was specified" in str(e) else ("err", exc_kind(e))
                         vl.append(r)
                     info["via_linter"] = vl
                 # histories
                 eligible = (root_cfg is not None and root_cfg.get("dialect") is not None and not sc.decoys
                             and all(d0[0] == "ok" and d0[2].get("dialect") is not None for d0 in info["direct"])
                             and all(ar == t for (p, t), ar in zip(sc.sql, info["as_read"])))
-                if eligible and (n_hist < max_hist or si < 12):
+                if eligible and n_hist < max_hist:
                     n_hist += 1
+                    th = coq.now()
                     info["history"] = history(ctx, sc, root, kw, rng)
+                    ctx.coverage_extra["t_histories_s"] = round(ctx.coverage_extra.get("t_histories_s", 0) + coq.now() - th, 1)
         ctx.coverage_extra["histories"] = n_hist
         ctx.coverage_extra["t_impl_scenarios_s"] = round(coq.now() - t_impl0, 1)
         # ---- monitors that need no Coq
@@ -1463,6 +1474,13 @@ def _run(ctx, coq_ok, base_tmp):
                 m = by_text[(p, ar)]
                 ctx.case(None, bucket="scenario-file-via-linter")
                 if r[0] == "nodialect":
+                    # legitimate when the file's effective config has no dialect; with a dialect it is a finding
+                    eff = model_to_py(m[1]).get("core", {}).get("dialect") if m[0] == "ok" and isinstance(model_to_py(m[1]).get("core"), dict) else None
+                    if eff is not None:
+                        inline_d = any(l.replace(" ", "").startswith(("--sqlfluff:dialect:", "--sqlfluff:core:dialect:")) for l in ar.splitlines())
+                        ctx.violation("dialect-required-before-inline", "linting by path refuses a file (No dialect was specified) whose effective configuration does set a dialect",
+                                      {"input": sc.describe(), "file": "/".join(p), "effective_dialect": eff},
+                                      attrs={"entry": "Linter.load_raw_file_and_config", "dialect_only_from_inline": inline_d})
                     continue
                 if not same_outcome(m, r, model_to_py):
                     bad("Model.Config.file_config vs Linter.load_raw_file_and_config",
